@@ -118,16 +118,9 @@ fn write(
     state: &mut WinconBytes,
     buf: &[u8],
 ) -> std::io::Result<usize> {
-    for (style, printable) in state.extract_next(buf) {
-        let fg = style.get_fg_color().and_then(cap_wincon_color);
-        let bg = style.get_bg_color().and_then(cap_wincon_color);
-        let written = raw.write_colored(fg, bg, printable.as_bytes())?;
-        let possible = printable.len();
-        if possible != written {
-            // HACK: Unsupported atm
-            break;
-        }
-    }
+    // The extracted text can't be mapped back to an offset in `buf`, so partial progress can't
+    // be reported: consume all of `buf` or fail
+    write_all(raw, state, buf)?;
     Ok(buf.len())
 }
 
